@@ -115,19 +115,12 @@ class Runner13:
         from netqasm.sdk.shared_memory import SharedMemoryManager
 
         ex = self.ex
-        regs = {}
-        for bank, grp in ex._registers[a].items():
-            for idx, v in grp._register.items():
-                if v is not None:
-                    regs[f"{bank.name}{idx}"] = v
+        regs = self.sim.read_registers(ex, a)
         shm = SharedMemoryManager.get_shared_memory("node", a)
         sh_regs = {}
         sh_arrs = {}
         if shm is not None:
-            for bank, grp in shm._registers.items():
-                for idx, v in grp._register.items():
-                    if v is not None:
-                        sh_regs[f"{bank.name}{idx}"] = v
+            sh_regs = self.sim.read_shared_registers(shm)
             sh_arrs = {k: list(v) for k, v in shm._arrays._arrays.items()}
         return {
             "regs": regs,
